@@ -133,6 +133,9 @@ type KEServer struct {
 	wg     sync.WaitGroup
 }
 
+// SelfSigned returns a fresh self-signed certificate for loopback servers of the harness.
+func SelfSigned() (tls.Certificate, error) { return selfSigned() }
+
 func selfSigned() (tls.Certificate, error) {
 	key, err := ecdsa.GenerateKey(elliptic.P256(), rand.Reader)
 	if err != nil {
